@@ -112,8 +112,10 @@ def batching(case):
   """Sub-space B: one population x one batching combination."""
   sizes = case['sizes']
   key = (case['B'], case['epochs'], case['steps'], case['drop'], case['hseed'])
-  alg, c_ref, s_ref, h = algorithm('sgd', 'sgd', 0.125, 0.5, key, 'jit')
-  pop = algos.population(sizes, case.get('seed', 0))
+  alg, c_ref, s_ref, h = algorithm('sgd', 'sgd', 0.125, 0.5, key, case.get('backend', 'jit'))
+  # pre: client datasets with a batch-LEVEL preprocessor (features centred on the mean of the batch they are in): the client's
+  # batch stream is what its dataset yields batch by batch, whatever the algorithm does around it
+  pop = algos.population(sizes, case.get('seed', 0), batch_level_pre=bool(case.get('pre')))
   p0 = algos.nparams(algos.P0)
   state = alg.init(algos.jparams())
   new_state, want_p, _ = check_round(alg, c_ref, s_ref, h, state, p0, s_ref.init(p0), pop, 'round', case)
@@ -205,7 +207,17 @@ def plan(ctx):
         for drop in (False, True):
           for hs in ((0, 1) if th else (0,)):
             bc.append({'sizes': sizes, 'B': b, 'epochs': ep, 'steps': st, 'drop': drop, 'hseed': hs, 'seed': s})
-  ctx.pmap('batching', bc, chunk=12)
+  # the same combinations over datasets with a batch-level preprocessor, and through the pmap backend with empty clients
+  # listed first / in the middle (their batch streams are empty whatever num_steps says)
+  extra = [dict(c, pre=True) for c in bc if c['sizes'] != [3] and (th or c['B'] != 1)]
+  for sizes in ([0, 5], [0, 3, 0, 2], [2, 0, 3], [0, 0, 4, 1, 3]):
+    for be in (('pmap2', 'pmap3') if th else ('pmap2',)):
+      for ep, st in itertools.product((None, 1, 2), (None, 0, 1, 3)):
+        if ep is None and st is None:
+          continue
+        for drop in ((False, True) if th else (False,)):
+          extra.append({'sizes': sizes, 'B': 2, 'epochs': ep, 'steps': st, 'drop': drop, 'hseed': 0, 'seed': s, 'backend': be})
+  ctx.pmap('batching', bc + extra, chunk=12)
   ctx.pmap('histories', [{'copt': c, 'sopt': so, 'depth': 4 if th else 2, 'seed': s}
                          for c in ('sgd', 'mom', 'adam') for so in ('sgd', 'mom', 'adam')], chunk=1)
   # one long history per optimizer pair (16 rounds, every cohort several times): drift, counters, caches that fill up
